@@ -1,4 +1,4 @@
-\* repaired model: chain 0..10 (+3), Retained 0, one batch per block, min-age off, 4 operations; exhaustive
+\* repaired model: chain 0..10 (+3), Retained 0, one batch per block, min-age off, 4 operations, cancel/crash after any batch; exhaustive: 164 981 distinct states (528 004 generated), 7-20 s
 CONSTANTS
   MaxH = 13
   InitH = 10
